@@ -259,6 +259,18 @@ func (b *assignmentBuilder) notationTargetsMemberOf(lhsStruct bmodel.Node) (foun
 	return
 }
 
+// nilGuard wraps an assignment whose source is an explicit path (:map, :conv) in a
+// nil check for every pointer the path dereferences below the root variable, so that
+// a nil nested pointer leaves the destination untouched instead of panicking.
+func nilGuard(src bmodel.Node, a gmodel.Assignment) gmodel.Assignment {
+	for p := src.Parent(); p != nil && p.Parent() != nil; p = p.Parent() {
+		if p.ObjNullable() {
+			a = gmodel.NestStruct{NullCheckExpr: p.NullCheckExpr(), Contents: []gmodel.Assignment{a}}
+		}
+	}
+	return a
+}
+
 // createWithConverter creates an assignment using the given field converter.
 // It resolves the source field, applies the converter, and creates an assignment from the result.
 func (b *assignmentBuilder) createWithConverter(lhs, rhs bmodel.Node, converter *option.FieldConverter) (gmodel.Assignment, error) {
@@ -298,7 +310,7 @@ func (b *assignmentBuilder) createWithConverter(lhs, rhs bmodel.Node, converter 
 	if converterNode != nil {
 		rhsExpr := converterNode.AssignExpr()
 		logger.Printf("%v: assignment found: %v = %v, err", posStr, lhsExpr, rhsExpr)
-		return gmodel.SimpleField{LHS: lhsExpr, RHS: rhsExpr, Error: converter.RetError()}, nil
+		return nilGuard(converterNode, gmodel.SimpleField{LHS: lhsExpr, RHS: rhsExpr, Error: converter.RetError()}), nil
 	}
 
 	logger.Warnf("%v: no assignment for %v [%v]", posStr, lhsExpr, b.imports.TypeName(lhs.ExprType()))
@@ -337,7 +349,7 @@ func (b *assignmentBuilder) createWithMapper(lhs, rhs bmodel.Node, mapper *optio
 	if mappedNode != nil {
 		rhsExpr := mappedNode.AssignExpr()
 		logger.Printf("%v: assignment found: %v = %v", posStr, lhs, rhs)
-		return gmodel.SimpleField{LHS: lhsExpr, RHS: rhsExpr, Error: mappedNode.ReturnsError()}, nil
+		return nilGuard(mappedNode, gmodel.SimpleField{LHS: lhsExpr, RHS: rhsExpr, Error: mappedNode.ReturnsError()}), nil
 	}
 
 	logger.Warnf("%v: no assignment for %v [%v]", posStr, lhsExpr, b.imports.TypeName(lhs.ExprType()))
@@ -378,7 +390,7 @@ func (b *assignmentBuilder) createWithTemplatedMapper(
 	if mappedNode != nil {
 		rhsExpr := mappedNode.AssignExpr()
 		logger.Printf("%v: assignment found: %v = %s", posStr, lhs, rhsExpr)
-		return gmodel.SimpleField{LHS: lhsExpr, RHS: rhsExpr, Error: mappedNode.ReturnsError()}, nil
+		return nilGuard(mappedNode, gmodel.SimpleField{LHS: lhsExpr, RHS: rhsExpr, Error: mappedNode.ReturnsError()}), nil
 	}
 
 	logger.Warnf("%v: no assignment for %v [%v]", posStr, lhsExpr, b.imports.TypeName(lhs.ExprType()))
